@@ -349,8 +349,77 @@ def rule_r4(chk, m):
     chk.ob("C11-R4", "dates.Period.from_sdmx_string", ok, "auto-detects the frequency then dispatches to the class parser", m.loc(f))
 
 
+def rule_r5(chk, m, rid="C11-R5"):
+    chk.rule(rid, "every reader of SDMX strings returns the period the string names, and does so too when the string is surrounded by blanks (all "
+             "readers agree on that: the regular ones strip, the daily one through int()): each <Class>.from_sdmx_string evaluated finitely on "
+             "concrete strings of its writer's language, bare and padded; the constructor call it makes names the same period", floor=6, shape_independent=True)
+    import datetime
+    samples = {
+        "YearlyPeriod": [("2020", ("serial", 2020)), ("0987", ("serial", 987))],
+        "HalfyearlyPeriod": [("2020-H2", ("ys", 2020, 2)), ("1999-H1", ("ys", 1999, 1))],
+        "QuarterlyPeriod": [("2020-Q3", ("ys", 2020, 3)), ("1999-Q4", ("ys", 1999, 4))],
+        "MonthlyPeriod": [("2020-07", ("ys", 2020, 7)), ("1999-12", ("ys", 1999, 12)), ("2001-10", ("ys", 2001, 10))],
+        "DailyPeriod": [("2020-07-15", ("ymd", 2020, 7, 15)), ("2000-02-29", ("ymd", 2000, 2, 29)), ("2021-12-10", ("ymd", 2021, 12, 10)), ("2021-01-20", ("ymd", 2021, 1, 20))],
+        "IntegerPeriod": [("(5)", ("serial", 5)), ("(-3)", ("serial", -3)), ("(120)", ("serial", 120))],
+    }
+
+    def same(a, b):
+        def norm(x):
+            if x and x[0] == "ymd":
+                return ("serial", datetime.date(*x[1:]).toordinal())
+            return x
+        return a == b or (a and b and {a[0], b[0]} == {"ymd", "serial"} and norm(a) == norm(b))
+    for cname in CLASSES.values():
+        _, wre, _ = writer_regex(m, cname)
+        c, g = resolve_method(m, cname, "from_sdmx_string")
+        chk.saw(m, f"{c}.from_sdmx_string")
+        wd = rx.compile_regex(wre)
+        bad = None
+        n = 0
+        for text, want in samples[cname]:
+            if not wd.accepts(text):
+                continue          # not in the writer's language any more: nothing to demand
+            for padded in (text, " " + text, text + " ", "  " + text + "  "):
+                rec = []
+
+                class _K(fin.FinObj):
+                    def __call__(self, *a):
+                        rec.append(("serial",) + a)
+                        return "OBJ"
+                k = _K(from_year_segment=lambda *a: rec.append(("ys",) + a) or "OBJ", from_ymd=lambda *a: rec.append(("ymd",) + a) or "OBJ")
+                funcs = dict(fin.CALENDAR_FUNCS)
+                funcs["_dt.date.fromisoformat"] = datetime.date.fromisoformat
+                funcs[params(g)[0]] = k
+                try:
+                    fin.run_function(g, {params(g)[0]: k, params(g)[1]: padded}, funcs)
+                    got = rec[-1] if rec else None
+                    why = f"calls {rec}" if rec else "makes no constructor call"
+                except fin.NotFinite as ex:
+                    bad = None
+                    n = -1
+                    note = f"not finitely evaluable on {padded!r}: {ex}"
+                    break
+                except (fin.Raised, ValueError, TypeError, IndexError) as ex:
+                    got, why = None, f"raises {type(ex).__name__}: {ex}"
+                n += 1
+                if not same(got, want):
+                    bad = f"from_sdmx_string({padded!r}) {why}; expected the period {want}" + (" - the bare string is read correctly, the blank-padded one is not "
+                          "(every other reader tolerates surrounding blanks)" if padded != text else "")
+                    break
+            if bad or n < 0:
+                break
+        if n < 0:
+            chk.undecided(rid, f"dates.{cname}.from_sdmx_string[concrete strings]", note, m.loc(g))
+        elif n == 0:
+            chk.undecided(rid, f"dates.{cname}.from_sdmx_string[concrete strings]", "no sample string lies in the writer's language", m.loc(g))
+        else:
+            chk.ob(rid, f"dates.{cname}.from_sdmx_string[concrete strings]", bad is None, bad or f"{n} bare and blank-padded strings of the writer's language name the right period",
+                   m.loc(g), sure=True)
+
+
 def run(chk):
     m = chk.repo.mod(MOD)
+    chk.guard(rule_r5, chk, m)
     chk.guard(rule_r1, chk, m)
     chk.guard(rule_r2, chk, m)
     chk.guard(rule_r3, chk, m)
